@@ -463,6 +463,9 @@ class C11(Oracle):
             return   # left to C09
         _own_preamble(ctx, k)
         post = ctx.post
+        w = ctx.world
+        if len(set(pre.cells)) > 1:
+            w.count('probe:non_uniform_receiver:' + k)
         if k == 'case':
             new_text = getattr(pre.text, op['how'])()
             if len(new_text) != len(pre.text):
@@ -486,12 +489,20 @@ class C11(Oracle):
             if post is None or [o.text for o in post] != [e.text for e in exps]:
                 ctx.world.count('skipped:c11_text_differs_from_str')
                 return
+            cps = set(pre.change_points())
+            if len(exps) >= 2 and any(pre.cells):
+                w.count('probe:pieces_of_formatted_receiver')
+            if k == 'split' and op.get('sep') and any(op['sep'] in e.text or (len(op['sep']) > 1 and op['sep'][1:] and e.text.startswith(op['sep'][1:])) for e in exps):
+                w.count('probe:separator_text_recurs_in_piece')
             for j, (o, e) in enumerate(zip(post, exps)):
                 _expect(o, e, k, piece=j)
         elif k == 'replace':
             key = repr(sorted(op['new'].items()))
             nv, no = ctx.operands[key]
             plain = isinstance(nv, str) and not isinstance(nv, AnsiStr)
+            nm = len(strref.replace_matches(pre.text, op['old'], op.get('count', -1)))
+            if nm >= 2:
+                w.count('probe:replace_two_or_more_matches_%s' % ('plain' if plain else 'formatted_replacement'))
             self._cmp(ctx, post, models.m_replace(pre, op['old'], no, plain, op.get('count', -1)), 'replace')
         elif k == 'expandtabs':
             tab = op.get('tab', 8)
@@ -632,6 +643,18 @@ class C16(Oracle):
         ms = list(re.finditer(pat, pre.text, flags))
         if op['count'] >= 0:
             ms = ms[:op['count']]
+        w = ctx.world
+        all_ms = list(re.finditer(pat, pre.text, flags))
+        if any(m.end() == m.start() for m in all_ms):
+            w.count('probe:empty_match')
+        if any(x.end() == y.start() for x, y in zip(all_ms, all_ms[1:])):
+            w.count('probe:adjacent_matches')
+        if 0 <= op['count'] < len(all_ms):
+            w.count('probe:count_cuts_matches')
+        if not op['case'] and len(all_ms) != len(list(re.finditer(pat, pre.text))):
+            w.count('probe:case_insensitivity_matters')
+        if not op['regex'] and re.escape(op['pat']) != op['pat']:
+            w.count('probe:plain_pattern_with_metacharacters')
         ref = ctx.fmatch_twin   # a copy of the receiver taken before the call
         fmt_args = ops.settings_args(op)
         for m in ms:
@@ -708,6 +731,12 @@ class C17(Oracle):
                 return
             require(fs == b and has(b), 'find.found_where_absent', **detail)
             return
+        w = ctx.world
+        w.count('probe:found_%s' % ('reverse' if op['rev'] else 'forward'))
+        if have[0] == a and a > 0 and has(a - 1):
+            w.count('probe:start_inside_a_run')
+        if len(have) < min(b, n) - a:
+            w.count('probe:selection_on_proper_subrange')
         require(fs is not None, 'find.missed', first=have[0], **detail)
         require(isinstance(fs, int) and a <= fs <= b and has(fs), 'find.start_has_all', **detail)
         if not op['rev']:
@@ -742,6 +771,16 @@ class C03(Oracle):
         if '\x1b' in pre.text:
             ctx.world.count('skipped:esc_in_text')
             return
+        w = ctx.world
+        for cell in set(pre.cells):
+            if len(cell) >= 2 and any(';' in c and codes.parsable_g(c) for c in cell):
+                w.count('probe:multi_parameter_colour_next_to_other_setting')
+            if codes.has_conflict(cell):
+                w.count('probe:conflicting_or_shadowed_settings')
+            if any(not codes.valid_g(c) for c in cell):
+                w.count('probe:invalid_setting_present')
+            elif any(not codes.parsable_g(c) for c in cell):
+                w.count('probe:unparsable_setting_present')
         if k == 'roundtrip':
             if not codes.all_wf(pre.cells):
                 ctx.world.count('skipped:roundtrip_not_wf')
